@@ -22,7 +22,9 @@ CONSTANTS NF,        \* number of fibers available (main is fiber 0)
           Cap,       \* sequence: capacity per channel (channel ids 0..Len(Cap)-1), sync channels have 1
           IsSync,    \* sequence of booleans
           MaxOps,    \* operations per fiber (excluding the implicit end)
-          OpKinds    \* subset of {"send","recv","close","launch"}
+          OpKinds,   \* subset of {"send","recv","close","launch"}
+          FocusMode  \* TRUE: follow only behaviours in which a waiter search skipped a finished fiber's entry and
+                     \* found a live one behind it; from that step on every fiber just ends (see `focus`)
 
 Fib == 0 .. NF - 1
 Chan == 0 .. Len(Cap) - 1
@@ -46,15 +48,16 @@ VARIABLES
   end,      \* "run" | "exit" | "deadlock" | "error" | "panic:activate" | "panic:unblock"
   prog,     \* history: fiber -> sequence of operations chosen (the program)
   evs,      \* history: events emitted so far
-  bad       \* "none" or the contract's reason for refusing an event
+  bad,      \* "none" or the contract's reason for refusing an event
+  focus     \* FocusMode only: a waiter search has skipped a stale entry and hit a live one
 
 avars == <<cur, fst, rflag, fq, q, cst, sendW, recvW, used, parent, op, nops, phase, end>>
 hvars == <<prog, evs>>
-vars == <<avars, hvars, bad, cvars>>
+vars == <<avars, hvars, bad, cvars, focus>>
 
 \* What TLC fingerprints: the histories are left out so that equal scheduler states reached by
 \* different programs are merged.
-View == <<avars, bad, cch, cfib, cend>>
+View == <<avars, bad, cch, cfib, cend, focus>>
 
 ch(i) == i + 1   \* sequences are 1-based
 
@@ -77,6 +80,7 @@ Init ==
   /\ prog = [f \in Fib |-> <<>>]
   /\ evs = <<>>
   /\ bad = "none"
+  /\ focus = FALSE
   \* the contract starts with main and the channels in place
   /\ cch = [c \in Chan |-> [buf |-> <<>>, cap |-> Cap[ch(c)], sync |-> IsSync[ch(c)], closed |-> FALSE]]
   /\ cfib = (0 :> [st |-> "ready", c |-> NoChan])
@@ -153,7 +157,7 @@ Unborn == {g \in Fib : fst[g] = "Unborn"}
 NextChild == CHOOSE g \in Unborn : \A h \in Unborn : g <= h
 
 OpsOf(f) ==
-  IF nops[f] >= MaxOps THEN {[k |-> "end", c |-> None]}
+  IF nops[f] >= MaxOps \/ focus THEN {[k |-> "end", c |-> None]}
   ELSE {[k |-> "end", c |-> None]}
        \cup {[k |-> kk, c |-> c] : kk \in OpKinds \cap {"send", "recv", "close"}, c \in Chan}
        \cup (IF "launch" \in OpKinds /\ Unborn # {} THEN {[k |-> "launch", c |-> None]} ELSE {})
@@ -353,7 +357,13 @@ Switch ==
                                    ELSE /\ end' = "panic:activate" /\ UNCHANGED <<fst, phase, evs>>
           /\ UNCHANGED <<rflag, q, cst, sendW, recvW, used, parent, op, nops, prog, bad, cvars>>
 
-Next == Step \/ Switch
+\* a search over a waiter list that begins with the entry of a finished fiber and still finds a live waiter
+\* behind it (find_runnable_waiter's loop): the list got shorter in this step and such a hit was possible
+SkipHit(s, rf) == s # <<>> /\ ~rf[Head(s)] /\ FindRunnable(s, rf).w # None
+SkipNow == \E c \in Chan : \/ (SkipHit(sendW[c], rflag') /\ Len(sendW'[c]) < Len(sendW[c]))
+                           \/ (SkipHit(recvW[c], rflag') /\ Len(recvW'[c]) < Len(recvW[c]))
+
+Next == (Step \/ Switch) /\ focus' = (FocusMode /\ (focus \/ SkipNow))
 
 Spec == Init /\ [][Next]_vars
 
